@@ -120,6 +120,9 @@ func clusterCache() map[string]bool {
 		map[string]*wmodel.DataDatabasesMap{
 			"single":  {ClokiBaseDataBase: cfgbase.ClokiBaseDataBase{Node: "single"}},
 			"cluster": {ClokiBaseDataBase: cfgbase.ClokiBaseDataBase{Node: "cluster", ClusterName: "c1"}},
+			// round 7: two single servers whose DATABASE has the same name: their views must not share keys
+			"twin1": {ClokiBaseDataBase: cfgbase.ClokiBaseDataBase{Node: "twin1", Name: "qryn"}},
+			"twin2": {ClokiBaseDataBase: cfgbase.ClokiBaseDataBase{Node: "twin2", Name: "qryn"}},
 		})
 	defer c.Stop()
 	res := map[string]bool{}
@@ -130,6 +133,11 @@ func clusterCache() map[string]bool {
 		res[n+":second_checkandset"] = v.CheckAndSet(42)
 		res[n+":has_other"] = v.Has(43)
 	}
+	t1, t2 := c.DB("twin1"), c.DB("twin2")
+	res["twin1:first_checkandset"] = t1.CheckAndSet(77)
+	res["twin2:has_what_twin1_set"] = t2.Has(77)
+	res["twin2:first_checkandset"] = t2.CheckAndSet(77)
+	res["twin1:has_after_both"] = t1.Has(77)
 	return res
 }
 
